@@ -745,7 +745,7 @@ def rt_expected(fi, rec):
     return {"time": format(rec["time"], "YYYY-MM-DD HH:mm:ss.SSS"), "level": rec["level"].name, "message": rec["message"]}
 
 
-def roundtrip_once(ctx, rng, wd, fi, msgs, levels, ks_mode, rep_in=None):
+def roundtrip_once(ctx, rng, wd, fi, msgs, levels, ks_mode):
     fmt, rx, intkeys, multi = RT_FORMATS[fi]
     lg = mk_logger()
     path = os.path.join(wd.d, "rt%d.log" % rng.below(1 << 30))
@@ -905,9 +905,6 @@ def oracle_stream(ctx, rng, wd, boost):
             kind = "short"
         ctx.stat("source:" + kind)
         ks2 = sorted({1, len(data) + 1, rng.range(1, len(data) + 1), rng.range(1, len(data) + 1)})
-        if kind in ("path", "pathlib", "pathlike", "textfile"):
-            # the decoded content is what counts; re-decide the domain only if decoding changed it
-            pass
         fails += judge_case(ctx, rx_src, text, is_bytes, kind, cast_spec, ks2, wd, seed)
         if kind in ("path", "pathlib", "pathlike", "pathlike_str") and rng.chance(50):
             fails += early_close_case(ctx, rx_src, text, kind, rng.choice(ks2), wd)
